@@ -19,3 +19,29 @@ chk("C15", "exploration",
     "located errors and purity of src/dst.",
     "perl 5.36 pack/unpack is the compatibility reference; contents at large sizes are three fixed patterns (the codec is group-local, and all groups are covered).",
     "DESIGN.md 5 C15")
+
+HOOK_COMMITS[:] = ["91b4480"]
+
+_BW = ("BFS over the REAL iobroker.Broker (not a model of it): concurrent attempts are parked by build-tag hooks in front of the broker's "
+       "admission and release critical sections and let through one at a time; streams, contexts, operator channels and the log handler are harness objects whose "
+       "answers are explicit events; quiescence (all goroutines blocked) separates steps; a boring reference model written from the statement is compared "
+       "with the broker's private state and with observations after every step. Every execution is a model trace replayed on the implementation. ")
+_BWNOTE = ("Assumes lock-section + environment-event granularity is enough (all shared broker state is touched only inside the two gated sections; "
+           "a free-running -race pass of the same scenarios in the thorough tier checks that). Bounds (attempts, IDs, lines, chunks) are in the evidence file per profile.")
+
+chk("C01", "model_checking",
+    "explicit-state BFS over the real broker under a controlled scheduler (hook gates), reference-model conformance after every step",
+    _BW + "C01: <=3 (thorough 4) attempts over IDs {k, kk, K, empty, /io}, every order of admissions, stream endings, releases, cancellations and shutdown; "
+    "oracles: refused attempts end at once, never see I/O, are announced; only the attached pair sees a probe line / chunk; IDs equal.",
+    _BWNOTE, "DESIGN.md 4, 5 C01")
+chk("C04", "model_checking",
+    "explicit-state BFS over the real broker under a controlled scheduler, goroutine census at quiescence",
+    _BW + "C04: every ending (EOF, error, data+error, write/flush failure, cancel, input closed, shutdown) in every life state of uni- and bidirectional shells over "
+    "successive shells, plus a stalled-terminal flood on an unbuffered operator channel; oracles: peer ends without traffic, exactly one ready/gone notice and event, "
+    "closure notices, no goroutine of an ended shell left, Do returns only when nothing is attached.",
+    _BWNOTE, "DESIGN.md 4, 5 C04")
+chk("C06", "model_checking",
+    "explicit-state BFS over the real broker under a controlled scheduler: every admission order of the halves of 2-4 /io requests",
+    _BW + "C06: 2 (thorough up to 4) simultaneous ConnectInOut calls plus unidirectional streams, each half parked separately, every admission order, "
+    "cancellations and releases; oracle: the attached pair always belongs to one request (checked on state, on who receives the probe line and whose reader is drained).",
+    _BWNOTE, "DESIGN.md 4, 5 C06")
